@@ -78,9 +78,13 @@ def field(P, obj, name, dom):
     return dom.init_field(path, None)
 
 
-def size_models(rows, dom, extra=(), bound=3):
+MODEL_BOUND = {'ring': 5, 'sizes': 3}        # small-model bounds (capacity of the enumerated buffers / sizes of the arrays); the thorough tier raises them
+
+
+def size_models(rows, dom, extra=(), bound=None):
     """valuations of the size symbols (all >= 0, small) that satisfy every sign atom of the row; raises LookupError on other atoms"""
     import itertools as it
+    if bound is None: bound = MODEL_BOUND['sizes']
     syms = set(extra)
     for k, v in rows.items():
         if isinstance(k, tuple) and k[0] == 'sign':
@@ -528,9 +532,10 @@ class RCtx:
                 if s_ == -1: self._contra = True; break
         return self._contra
 
-    def models(self, extra=('p:newCapacity',), bound=5):
+    def models(self, extra=('p:newCapacity',), bound=None):
         """valuations of the entry symbols (small buffers) that satisfy the object invariants and every atom of this row"""
         import itertools as it
+        if bound is None: bound = MODEL_BOUND['ring']
         syms = set()
         for k, v in self.rows.items():
             if isinstance(k, tuple) and k[0] == 'sign' and self.dom.lin_of.get(k[1]) is not None: syms |= set(self.dom.lin_of[k[1]].t)
